@@ -494,6 +494,178 @@ func TestPropCore(t *testing.T) {
 
 func TestPropPrefix(t *testing.T) { evid.RunProp(t, "prefix", 1, gen, check) }
 
+// ---------- sub-property "multi": several actions (or loop iterations) in one URL attribute value ----------
+//
+// <E A="P {{.V0}} M1 {{.V1}} M2 {{.V2}} S">: every static middle piece contains '|', which neither escaping mode
+// can emit, so the decoded value splits uniquely. Each datum is judged by the class of the static text in front
+// of it (prefix + earlier middles), as the engine must do; what earlier data contributed is not static text.
+
+type MultiCase struct {
+	Ctx     string      `json:"ctx"`
+	Quote   string      `json:"quote"`
+	Prefix  evid.BStr   `json:"prefix"`
+	Middles []evid.BStr `json:"middles"` // len = len(Data)-1 (plain) or 1 (loop: the separator repeated after every item)
+	Data    []evid.BStr `json:"data"`
+	Loop    bool        `json:"loop"`
+}
+
+func (c MultiCase) template(cx *attrCtx) (string, map[string]interface{}) {
+	var b strings.Builder
+	data := map[string]interface{}{}
+	b.WriteString(cx.Pre + c.Quote + string(c.Prefix))
+	if c.Loop {
+		var l []string
+		for _, d := range c.Data {
+			l = append(l, string(d))
+		}
+		data["L"] = l
+		b.WriteString("{{range .L}}{{.}}" + string(c.Middles[0]) + "{{end}}")
+	} else {
+		for i, d := range c.Data {
+			f := fmt.Sprintf("V%d", i)
+			data[f] = string(d)
+			b.WriteString("{{." + f + "}}")
+			if i < len(c.Middles) {
+				b.WriteString(string(c.Middles[i]))
+			}
+		}
+	}
+	b.WriteString(c.Quote + cx.Post)
+	return b.String(), data
+}
+
+func checkMulti(c MultiCase) evid.Outcome {
+	cx := ctxByID(c.Ctx)
+	o := evid.Outcome{}
+	if cx == nil || len(c.Data) == 0 || len(c.Middles) == 0 || (!c.Loop && len(c.Middles) != len(c.Data)-1 && len(c.Data) > 1) {
+		o.Skip = true
+		return o
+	}
+	for _, m := range c.Middles {
+		if !strings.Contains(string(m), "|") || strings.Contains(string(m), c.Quote) {
+			o.Skip = true
+			return o
+		}
+	}
+	text, data := c.template(cx)
+	t, perr := tx.Parse(text)
+	if perr != nil {
+		o.Skip = true
+		return o
+	}
+	out, err := tx.Exec(t, data)
+	if err != nil {
+		o.Labels = append(o.Labels, "rejected")
+		o.Skip = true
+		return o
+	}
+	o.Labels = append(o.Labels, "accepted")
+	r := htmltok.Tokenize([]byte(out), htmltok.Options{})
+	var av *htmltok.Attr
+	if len(r.Tokens) >= 1 && r.Tokens[0].Kind == htmltok.StartTag {
+		for i := range r.Tokens[0].Attrs {
+			if r.Tokens[0].Attrs[i].Name == cx.Attr {
+				av = &r.Tokens[0].Attrs[i]
+			}
+		}
+	}
+	if av == nil {
+		return evid.Viol("template %q data %q: attribute lost in %q", text, c.Data, out)
+	}
+	v := av.Value
+	dP, _ := decodeAttr(string(c.Prefix), c.Quote)
+	if !strings.HasPrefix(v, dP) {
+		return evid.Viol("template %q data %q: value %q does not start with the decoded prefix %q", text, c.Data, v, dP)
+	}
+	rest := v[len(dP):]
+	static := dP
+	for i, d := range c.Data {
+		var mid string
+		switch {
+		case c.Loop:
+			mid, _ = decodeAttr(string(c.Middles[0]), c.Quote)
+		case i < len(c.Middles):
+			mid, _ = decodeAttr(string(c.Middles[i]), c.Quote)
+		}
+		var m string
+		if mid != "" {
+			k := strings.Index(rest, mid)
+			if k < 0 {
+				return evid.Viol("template %q data %q: middle piece %q not found in %q (value %q)", text, c.Data, mid, rest, v)
+			}
+			m, rest = rest[:k], rest[k+len(mid):]
+		} else {
+			m, rest = rest, ""
+		}
+		datum := string(d)
+		for k := 0; k < len(datum); k++ {
+			if !rfc3986.Unreserved(datum[k]) {
+				o.NonTrivial = true
+			}
+		}
+		inQuery := strings.ContainsAny(static, "?#")
+		bad := ""
+		if static == "" {
+			// first datum without any static text in front: whole-URL sanitization (C02/C11), nothing to say here
+		} else if inQuery || cx.Class == "TRU" {
+			for k := 0; k < len(m); k++ {
+				if !(rfc3986.Unreserved(m[k]) || rfc3986.IsEscape(m, k) || (k >= 1 && rfc3986.IsEscape(m, k-1)) || (k >= 2 && rfc3986.IsEscape(m, k-2))) {
+					bad = fmt.Sprintf("datum %d %q follows the static text %q (query/fragment or TrustedResourceURL prefix) but is emitted as %q, not fully percent-encoded", i, datum, static, m)
+				}
+			}
+			if bad == "" && rfc3986.Decode(m) != datum {
+				bad = fmt.Sprintf("datum %d %q is emitted as %q which does not decode to it", i, datum, m)
+			}
+		} else {
+			for k := 0; k < len(m); k++ {
+				ch := m[k]
+				if ch <= 0x20 || ch >= 0x7f || strings.IndexByte("\"'<>\\`{}|^", ch) >= 0 || (ch == '%' && !rfc3986.IsEscape(m, k)) {
+					bad = fmt.Sprintf("datum %d %q is emitted as %q which is not normalised (byte %q)", i, datum, m, ch)
+				}
+			}
+		}
+		if bad != "" {
+			vi := evid.Viol("template %q: %s (value %q)", text, bad, v)
+			if c.Loop && i >= 1 {
+				// K-range: the loop body is analysed once, with the static text in front of the first iteration
+				vi.Finding = "K-range"
+			}
+			return vi
+		}
+		static += mid
+	}
+	return o
+}
+
+var middlePieces = []string{"|", "/|", "|/", "?|=", "|?q=", "#|", "&amp;|=", "|.", ".|", "/|/", "|&amp;x="}
+
+func genMulti(t *rapid.T) MultiCase {
+	c := MultiCase{Ctx: ctxs[rapid.IntRange(0, len(ctxs)-1).Draw(t, "ctx")].ID, Quote: rapid.SampledFrom([]string{`"`, `'`}).Draw(t, "quote")}
+	c.Prefix = evid.BStr(rapid.SampledFrom([]string{"/x/", "/x?q=", "https://h/p/", "/p#", "//h/a/", "/a.", "/a/b.js?v=", "about:blank#", "", "/"}).Draw(t, "prefix"))
+	c.Loop = rapid.IntRange(0, 2).Draw(t, "loop") == 0
+	n := rapid.IntRange(1, 3).Draw(t, "n")
+	for i := 0; i < n; i++ {
+		if rapid.Bool().Draw(t, "dict") {
+			c.Data = append(c.Data, evid.BStr(rapid.SampledFrom(dataDict).Draw(t, "data")))
+		} else {
+			c.Data = append(c.Data, evid.BStr(strs.Hostile(3, dataDict).Draw(t, "data")))
+		}
+	}
+	nm := n - 1
+	if c.Loop || nm == 0 {
+		nm = 1
+	}
+	for i := 0; i < nm; i++ {
+		c.Middles = append(c.Middles, evid.BStr(rapid.SampledFrom(middlePieces).Draw(t, "middle")))
+	}
+	if !c.Loop && n == 1 {
+		c.Middles = c.Middles[:1]
+	}
+	return c
+}
+
+func TestPropMulti(t *testing.T) { evid.RunProp(t, "multi", 0.5, genMulti, checkMulti) }
+
 func FuzzPrefix(f *testing.F) {
 	f.Add("/x&quest;a=", "&b=2#f", 2)
 	f.Add("/x/.", ".", 7)
@@ -511,5 +683,5 @@ func FuzzPrefix(f *testing.F) {
 }
 
 func TestReplay(t *testing.T) {
-	evid.Replay(t, evid.R("prefix", check), evid.R("fuzz", check))
+	evid.Replay(t, evid.R("prefix", check), evid.R("fuzz", check), evid.R("multi", checkMulti))
 }
